@@ -29,7 +29,11 @@ import (
 
 	"google.golang.org/protobuf/encoding/protojson"
 	"google.golang.org/protobuf/proto"
+	"google.golang.org/protobuf/reflect/protodesc"
 	"google.golang.org/protobuf/reflect/protoreflect"
+	"google.golang.org/protobuf/reflect/protoregistry"
+	"google.golang.org/protobuf/types/descriptorpb"
+	"google.golang.org/protobuf/types/dynamicpb"
 )
 
 func init() { Register("jsonrt", famJsonrt) }
@@ -250,7 +254,8 @@ func jsonrtF11Repair(o, g protoreflect.Message) int {
 
 var jsonrtCoreCache = map[protoreflect.FullName]bool{}
 
-// jsonrtCore: no message type reachable from md has a special JSON mapping (Empty excepted).
+// jsonrtCore: every message type reachable from md is ordinary or one of the structural well-known
+// types (wrappers, Struct, ListValue, Value, Empty) -- the part of C20 that is proved (json_core2).
 func jsonrtCore(md protoreflect.MessageDescriptor) bool {
 	if v, ok := jsonrtCoreCache[md.FullName()]; ok {
 		return v
@@ -258,7 +263,7 @@ func jsonrtCore(md protoreflect.MessageDescriptor) bool {
 	_, list := rtCollectTypes(md, nil)
 	ok := true
 	for _, d := range list {
-		if c := rtWktCode(d); c != 0 && c != 9 {
+		if c := rtWktCode(d); c == 1 || c == 2 || c == 3 || c == 8 {
 			ok = false
 		}
 	}
@@ -539,6 +544,41 @@ func jsonrtWktCorpus(c *Ctx, all []*rtTarget, cfg jsonrtCfg) {
 	}
 }
 
+// jsonrtKW: the schema of the Coq witness of C20_json_roundtrip_refuted (verif.KW: optional NullValue,
+// optional Value, Struct, ListValue, Int64Value, repeated Value) as a dynamic message type.
+func jsonrtKW(c *Ctx) *rtTarget {
+	opt := descriptorpb.FieldDescriptorProto_LABEL_OPTIONAL.Enum()
+	rep := descriptorpb.FieldDescriptorProto_LABEL_REPEATED.Enum()
+	msg := descriptorpb.FieldDescriptorProto_TYPE_MESSAGE.Enum()
+	f := func(name, json string, num int32, label *descriptorpb.FieldDescriptorProto_Label, typ *descriptorpb.FieldDescriptorProto_Type, tn string) *descriptorpb.FieldDescriptorProto {
+		fd := &descriptorpb.FieldDescriptorProto{Name: proto.String(name), JsonName: proto.String(json), Number: proto.Int32(num), Label: label, Type: typ}
+		if tn != "" {
+			fd.TypeName = proto.String(tn)
+		}
+		return fd
+	}
+	fdp := &descriptorpb.FileDescriptorProto{
+		Name: proto.String("verif/kw.proto"), Package: proto.String("verif"), Syntax: proto.String("proto2"),
+		Dependency: []string{"google/protobuf/struct.proto", "google/protobuf/wrappers.proto"},
+		MessageType: []*descriptorpb.DescriptorProto{{Name: proto.String("KW"), Field: []*descriptorpb.FieldDescriptorProto{
+			f("opt_null", "optNull", 1, opt, descriptorpb.FieldDescriptorProto_TYPE_ENUM.Enum(), ".google.protobuf.NullValue"),
+			f("n", "n", 2, opt, descriptorpb.FieldDescriptorProto_TYPE_INT32.Enum(), ""),
+			f("opt_value", "optValue", 3, opt, msg, ".google.protobuf.Value"),
+			f("st", "st", 4, opt, msg, ".google.protobuf.Struct"),
+			f("lv", "lv", 5, opt, msg, ".google.protobuf.ListValue"),
+			f("w", "w", 6, opt, msg, ".google.protobuf.Int64Value"),
+			f("rv", "rv", 7, rep, msg, ".google.protobuf.Value"),
+		}}},
+	}
+	fd, err := protodesc.NewFile(fdp, protoregistry.GlobalFiles)
+	if err != nil {
+		c.PropFail("C20", "witness schema verif.KW rejected: "+err.Error())
+		return nil
+	}
+	md := fd.Messages().Get(0)
+	return &rtTarget{name: "rnd", md: md, new: func() protoreflect.Message { return dynamicpb.NewMessage(md) }}
+}
+
 func famJsonrt(c *Ctx) {
 	cfg := jsonrtCfg{emitC: true}
 	nrnd := c.N / 40
@@ -549,6 +589,16 @@ func famJsonrt(c *Ctx) {
 	c.StatN("linked_targets", len(all))
 	jsonrtCorpus(c, all, cfg)
 	jsonrtWktCorpus(c, all, cfg)
+	kw := jsonrtKW(c)
+	if kw != nil {
+		// the Coq witness of the refutation: verif.KW{} under EmitUnpopulated
+		before := c.stats["known_F11"]
+		jsonrtOne(c, kw, kw.new(), cfg)
+		if c.stats["known_F11"] == before {
+			c.Stat("F11_coq_witness_passes")
+		}
+		heavy = append(heavy, kw, kw)
+	}
 	pool := rtAnyPool()
 	run := func(t *rtTarget) {
 		var m protoreflect.Message
